@@ -6,6 +6,7 @@ package sched
 
 import (
 	"errors"
+	"runtime"
 	"sync"
 
 	"qchen.fun/fatchoy"
@@ -65,12 +66,18 @@ func (e *ThreadPoolExecutor) start() {
 			var ready = make(chan struct{}, e.nworker)
 			for i := 0; i < e.nworker; i++ {
 				e.wg.Add(1)
-				go e.worker(i + 1)
+				go e.worker(i+1, ready)
 			}
 			for i := 0; i < e.nworker; i++ {
 				<-ready
 			}
 			e.state.Set(fatchoy.StateRunning)
+		}
+
+	case fatchoy.StateStarted:
+		// another caller is starting the workers: wait until it is done
+		for e.state.Get() == fatchoy.StateStarted {
+			runtime.Gosched()
 		}
 
 	case fatchoy.StateRunning:
@@ -88,8 +95,9 @@ func (e *ThreadPoolExecutor) run(r Runnable) {
 	}
 }
 
-func (e *ThreadPoolExecutor) worker(i int) {
+func (e *ThreadPoolExecutor) worker(i int, ready chan<- struct{}) {
 	defer e.wg.Done()
+	ready <- struct{}{}
 	for {
 		select {
 		case r := <-e.queue:
